@@ -154,6 +154,13 @@ def work(args):
                         impl.Line(fac(), Vector(1, 2, 3)).move(Vector(2, -1, 5))
                     except Exception:
                         pass
+                # the same vector reached by component assignment: vc starts as b, is queried (anything a query may cache is cached
+                # now), then becomes a through __setitem__ -- every metric must describe the CURRENT components
+                vc = Vector(*[conv(tn, x) for x in b])
+                vc.length(), vc.normalized(), vc.unit(), vc.angle(va), vc.parallel(va), hash(vc)
+                for t_ in range(3):
+                    vc[t_] = conv(tn, a[t_])
+                rec.update(set_length=float(vc.length()), set_ncomp=[float(x) for x in vc.normalized()], set_angle=float(vc.angle(vb)), set_eq=(vc == va))
                 rec.update(tn=tn, a=a, b=b, length=float(va.length()), nlen=float(nrm.length()), ncomp=[float(x) for x in nrm], unit=[float(x) for x in va.unit()],
                            angle=float(va.angle(vb)), self_angle=float(va.angle(va)), zero=[val(x) for x in Vector.zero()],
                            units=[[val(x) for x in v] for v in (Vector.x_unit_vector(), Vector.y_unit_vector(), Vector.z_unit_vector())])
@@ -170,7 +177,7 @@ def cross(a, b):
 def run(ctx, scale=1):
     ctx.extra['rule'] = ('three families cycled: (0) both operands of one numeric type among int/Fraction/Decimal/float/user ring type (dyadic rationals, exactly representable in every type): '
                          '+,-,* both sides, neg, dot, cross, Vector(P1,P2) and the three identities, values compared exactly and result types compared; (1) mixed types within one Vector/Point '
-                         'constructor call (positional and list forms): promotion to the most general type present; (2) length/normalized/unit/angle for int, float, Fraction at magnitudes 1e-6..1e6; '
+                         'constructor call (positional and list forms): promotion to the most general type present; (2) length/normalized/unit/angle for int, float, Fraction at magnitudes 1e-6..1e6, also on a vector that was queried and then re-assigned component by component; '
                          'the component FORMULAS themselves are established for all inputs by the symbolic translator (tools/extract_poly.py) and the theorems of G3D.Props.C18')
     total = ctx.n(6000, 120000) * scale
     recs = []
@@ -221,6 +228,8 @@ def run(ctx, scale=1):
             ref = math.acos(max(-1.0, min(1.0, cosv)))
             if not (0 <= r['angle'] <= math.pi + 1e-12) or abs(r['angle'] - ref) > 1e-6:
                 problems.append('angle %r, exact %r' % (r['angle'], ref))
+            if abs(r['set_length'] - la) > 1e-9 * la or any(abs(c * la - float(x)) > 1e-9 * la for c, x in zip(r['set_ncomp'], a)) or abs(r['set_angle'] - ref) > 1e-6 or r['set_eq'] is not True:
+                problems.append('after assigning the components of a to a vector that held b: length %r (exact %r), normalized %s, angle %r (exact %r), == a: %r' % (r['set_length'], la, r['set_ncomp'], r['set_angle'], ref, r['set_eq']))
             if abs(r['self_angle']) > 1e-6:
                 problems.append('angle(v, v) = %r' % r['self_angle'])
             if r['zero'] != [0, 0, 0] or r['units'] != [[1, 0, 0], [0, 1, 0], [0, 0, 1]]:
